@@ -120,17 +120,64 @@ def truediv(a, b):
     return a / b  # Fractions: exact (A-FLOAT view of float division)
 
 
+def _integral(x):
+    """Int term equal to the Real term x when x is syntactically integral (sums/products of to_real(int)
+    and integral numerals after polynomial normalisation); None otherwise.  Pure algebra: sound."""
+    if not (is_sym(x) and z3.is_real(x)):
+        return None
+    try:
+        t = z3.simplify(x, som=True)
+    except z3.Z3Exception:
+        return None
+
+    def conv(e):
+        if z3.is_rational_value(e):
+            if e.denominator_as_long() == 1:
+                return z3.IntVal(e.numerator_as_long())
+            return None
+        if not z3.is_app(e):
+            return None
+        k = e.decl().kind()
+        if k == z3.Z3_OP_TO_REAL:
+            return e.arg(0)
+        if k in (z3.Z3_OP_ADD, z3.Z3_OP_MUL, z3.Z3_OP_SUB):
+            parts = [conv(c) for c in e.children()]
+            if any(p is None for p in parts):
+                return None
+            r = parts[0]
+            for p in parts[1:]:
+                r = r + p if k == z3.Z3_OP_ADD else (r * p if k == z3.Z3_OP_MUL else r - p)
+            return r
+        if k == z3.Z3_OP_UMINUS:
+            p = conv(e.arg(0))
+            return None if p is None else -p
+        if k == z3.Z3_OP_ITE:
+            a, b = conv(e.arg(1)), conv(e.arg(2))
+            if a is None or b is None:
+                return None
+            return z3.If(e.arg(0), a, b)
+        return None
+
+    return conv(t)
+
+
 def floor(x):
     x = num(x)
     if is_sym(x):
-        return z3.ToInt(x) if z3.is_real(x) else x
+        if not z3.is_real(x):
+            return x
+        i = _integral(x)
+        return i if i is not None else z3.ToInt(x)
     return math.floor(x)
 
 
 def ceil(x):
     x = num(x)
     if is_sym(x):
-        return -z3.ToInt(-x) if z3.is_real(x) else x
+        if not z3.is_real(x):
+            return x
+        i = _integral(x)
+        return i if i is not None else -z3.ToInt(-x)
     return math.ceil(x)
 
 
@@ -140,6 +187,9 @@ def trunc(x):
     if is_sym(x):
         if z3.is_int(x):
             return x
+        i = _integral(x)
+        if i is not None:
+            return i
         return z3.If(x >= 0, z3.ToInt(x), -z3.ToInt(-x))
     return int(x)
 
@@ -150,6 +200,9 @@ def rhe(x):
     if is_sym(x):
         if z3.is_int(x):
             return x
+        i = _integral(x)
+        if i is not None:
+            return i
         f = z3.ToInt(x)
         r = x - z3.ToReal(f)
         half = z3.RealVal(Fraction(1, 2))
@@ -319,3 +372,25 @@ def between(lo, x, hi):
 def sign(x):
     """-1 if x < 0 else 1   (Duration._sign and copysign(1, x) for non-zero / +0 values)"""
     return If(lt(x, 0), -1, 1)
+
+
+_RATIO_NUM = z3.Function("ratio_num", z3.RealSort(), z3.IntSort())
+_RATIO_DEN = z3.Function("ratio_den", z3.RealSort(), z3.IntSort())
+
+
+def ratio(x):
+    """float.as_integer_ratio(): (numerator, denominator) with denominator > 0 and num/den == x.
+    SMT: uninterpreted functions of x (the same float has the same ratio everywhere) + ratio_axioms(x)."""
+    if is_sym(x):
+        x = toreal(x)
+        return _RATIO_NUM(x), _RATIO_DEN(x)
+    if isinstance(x, int):
+        return x, 1
+    return Fraction(x).numerator, Fraction(x).denominator
+
+
+def ratio_axioms(x):
+    n, d = ratio(x)
+    if not is_sym(n):
+        return True
+    return z3.And(d > 0, z3.ToReal(d) * toreal(x) == z3.ToReal(n))
